@@ -1,46 +1,82 @@
-/-! Model/Csv.lean (prototype) — writer bytes and reader results identical to the csv crate on 3 000 manifests -/
+/-!
+Model/Csv.lean — the bytes `csv::Writer` produces for a manifest and what `csv::Reader` reads back,
+as configured in `manifest.rs` **now**:
+
+* writer: `WriterBuilder::new().comment(Some(b'#'))`, `QuoteStyle::Necessary`, delimiter `,`,
+  terminator `\n`, quote `"` doubled inside quoted fields.  csv-core's `Writer::build` marks as
+  "requires quotes" the delimiter, the quote, CR, LF and — because a comment byte is configured —
+  `#` **anywhere in any field** (csv-core 0.1.11 `writer.rs`: "we force quotes when a comment
+  character is encountered anywhere in the field").  A record whose bytes would be empty (a single
+  empty field) is written as `""`.  The header row is written before the first record only, so an
+  empty manifest is the banner line alone.
+* reader: `ReaderBuilder::new().comment(Some(b'#'))`: a `#` at the start of a record starts a
+  comment that runs to the next LF; blank lines are skipped; CR, LF and CRLF end a record; a quote at
+  the start of a field opens a quoted field, `""` inside it is a quote, anything after the closing
+  quote is appended literally; the first record is the header; every record must have the header's
+  number of fields (`flexible(false)`).
+-/
 namespace Csv
 
 abbrev Bytes := List UInt8
 
-def needsQuote (f : Bytes) : Bool := f.any (fun b => b == 44 || b == 34 || b == 13 || b == 10)
+/-- bytes for which csv-core's `requires_quotes` table is set: `,` `"` CR LF `#` -/
+def special (b : UInt8) : Bool := b == 44 || b == 34 || b == 13 || b == 10 || b == 35
+
+def needsQuote (f : Bytes) : Bool := f.any special
+
+/-- the inside of a quoted field: quotes doubled -/
+def escape (f : Bytes) : Bytes := f.flatMap (fun b => if b == 34 then [34, 34] else [b])
+
 def writeField (f : Bytes) : Bytes :=
-  if needsQuote f then [34] ++ f.flatMap (fun b => if b == 34 then [34, 34] else [b]) ++ [34] else f
+  if needsQuote f then [34] ++ escape f ++ [34] else f
+
 def writeRecord (fs : List Bytes) : Bytes :=
-  (match fs with
-   | [] => []
-   | f :: rest => writeField f ++ rest.flatMap (fun g => [44] ++ writeField g)) ++ [10]
+  match fs with
+  | [] => [10]
+  | [[]] => [34, 34, 10]                      -- `terminator()` with `record_bytes == 0`
+  | f :: rest => writeField f ++ rest.flatMap (fun g => [44] ++ writeField g) ++ [10]
 
+/-- "internal_location", "md5", "md5short", "ksize", "moltype", "num", "scaled", "n_hashes",
+    "with_abundance", "name", "filename" -/
 def header : List Bytes :=
-  ["internal_location","md5","md5short","ksize","moltype","num","scaled","n_hashes","with_abundance","name","filename"].map (fun s => s.toUTF8.toList)
-def banner : Bytes := "# SOURMASH-MANIFEST-VERSION: 1.0\n".toUTF8.toList
+  [[105,110,116,101,114,110,97,108,95,108,111,99,97,116,105,111,110], [109,100,53],
+   [109,100,53,115,104,111,114,116], [107,115,105,122,101], [109,111,108,116,121,112,101],
+   [110,117,109], [115,99,97,108,101,100], [110,95,104,97,115,104,101,115],
+   [119,105,116,104,95,97,98,117,110,100,97,110,99,101], [110,97,109,101],
+   [102,105,108,101,110,97,109,101]]
 
+/-- "# SOURMASH-MANIFEST-VERSION: 1.0\n" -/
+def banner : Bytes :=
+  [35,32,83,79,85,82,77,65,83,72,45,77,65,78,73,70,69,83,84,45,86,69,82,83,73,79,78,58,32,49,46,48,10]
+
+/-- `Manifest::to_writer` on rows already rendered as fields -/
 def writeManifest (recs : List (List Bytes)) : Bytes :=
-  banner ++ writeRecord header ++ recs.flatMap writeRecord
+  match recs with
+  | [] => banner
+  | _ => banner ++ writeRecord header ++ recs.flatMap writeRecord
 
-/-- reader: returns list of records (each a list of fields).
-    States: start-of-record (sor), in unquoted field, in quoted field, after closing quote. -/
-inductive S | sor | unq | quo | afterq deriving DecidableEq
+/-- reader states: start of record, inside an unquoted field (or at the start of a later field),
+    inside a quoted field, just after a closing quote, inside a comment line -/
+inductive S | sor | unq | quo | afterq | comment
+  deriving DecidableEq, Repr
 
 structure R where
   st : S := .sor
   field : Bytes := []
   cur : List Bytes := []
   out : List (List Bytes) := []
-  comment : Bool := false      -- skipping a comment line
-  sawCR : Bool := false
+  deriving DecidableEq, Repr
 
 def endField (r : R) : R := { r with cur := r.cur ++ [r.field], field := [] }
 def endRecord (r : R) : R :=
-  let r := endField r
-  { r with out := r.out ++ [r.cur], cur := [], st := .sor }
+  { r with out := r.out ++ [r.cur ++ [r.field]], cur := [], field := [], st := .sor }
 
 def step (r : R) (b : UInt8) : R :=
-  if r.comment then (if b == 10 then { r with comment := false, st := .sor } else r) else
   match r.st with
+  | .comment => if b == 10 then { r with st := .sor } else r
   | .sor =>
     if b == 10 || b == 13 then r                       -- blank line / CRLF remainder: skipped
-    else if b == 35 then { r with comment := true }
+    else if b == 35 then { r with st := .comment }
     else if b == 34 then { r with st := .quo }
     else if b == 44 then { (endField r) with st := .unq }
     else { r with st := .unq, field := [b] }
@@ -58,17 +94,18 @@ def step (r : R) (b : UInt8) : R :=
     else { r with st := .unq, field := r.field ++ [b] }
 
 def finish (r : R) : List (List Bytes) :=
-  if r.comment then r.out else
   match r.st with
   | .sor => r.out
+  | .comment => r.out
   | _ => (endRecord r).out
 
+/-- all records of the input, header included -/
 def parse (bs : Bytes) : List (List Bytes) := finish (bs.foldl step {})
 
-/-- manifest reader: first record = header; all records must have the header's field count -/
-def readManifest (bs : Bytes) : Option (List (List Bytes)) :=
+/-- header and data rows; `none` = `UnequalLengths` error -/
+def readTable (bs : Bytes) : Option (Option (List Bytes × List (List Bytes))) :=
   match parse bs with
-  | [] => some []
-  | h :: rest => if rest.all (fun r => r.length == h.length) then some rest else none
+  | [] => some none
+  | h :: rest => if rest.all (fun r => r.length == h.length) then some (some (h, rest)) else none
 
 end Csv
